@@ -25,7 +25,7 @@ import (
 
 type c02Case struct {
 	Val       int    `json:"val"`       // index into c02Values
-	Exp       int    `json:"exp"`       // 0 none, 1 +1h, 2 past
+	Exp       int    `json:"exp"`       // 0 none, 1 +1h, 2 past, 3 +400 years, 4 +2h given in seconds
 	IdleFreq  int    `json:"idlefreq"`  // 0 none, 1 idle, 2 freq
 	Threshold int    `json:"threshold"` // 0: big key threshold 1 (below payload), 1: 1<<30
 	KeyExists string `json:"key_exists"`
@@ -143,6 +143,12 @@ func c02Run(c c02Case) string {
 		opts.ExpKind, opts.ExpAt = "ms", uint64(now0+shiftMs+3600*1000)
 	case 2:
 		opts.ExpKind, opts.ExpAt = "ms", uint64(now0+shiftMs-5000)
+	case 3:
+		// four centuries ahead: beyond what an int64 of nanoseconds can hold
+		opts.ExpKind, opts.ExpAt = "ms", uint64(now0+shiftMs+400*365*86400*1000)
+	case 4:
+		// expiry given in seconds
+		opts.ExpKind, opts.ExpAt = "s", uint64((now0+shiftMs)/1000+7200)
 	}
 	switch c.IdleFreq {
 	case 1:
@@ -160,7 +166,11 @@ func c02Run(c c02Case) string {
 	if err != nil || e == nil {
 		return "parser"
 	}
-	return c02Restore(c, []*rdb.BinEntry{e}, v.Log, append([]byte{v.Type}, v.Raw...), keyName, int64(opts.ExpAt), shiftMs)
+	expMs := int64(opts.ExpAt)
+	if opts.ExpKind == "s" {
+		expMs *= 1000
+	}
+	return c02Restore(c, []*rdb.BinEntry{e}, v.Log, append([]byte{v.Type}, v.Raw...), keyName, expMs, shiftMs)
 }
 
 func c02Restore(c c02Case, entries []*rdb.BinEntry, lg *rdbgen.Logical, body []byte, keyName string, expireAt, shiftMs int64) string {
@@ -377,7 +387,11 @@ func TestVerif_C02(t *testing.T) {
 			break
 		}
 		big := len(c02Values[v].Raw) > 3000
-		for exp := 0; exp < 3; exp++ {
+		nexp := 3
+		if ev.Thorough() {
+			nexp = 5
+		}
+		for exp := 0; exp < nexp; exp++ {
 			for idf := 0; idf < 3; idf++ {
 				if !ev.Thorough() && (idf == 2 && exp != 0 || big && idf != 0) {
 					continue
@@ -428,7 +442,7 @@ func TestVerif_C02(t *testing.T) {
 	// C. time shift x expiry
 	for _, sh := range []int{-1, 1, 24} {
 		for _, v := range reps {
-			for exp := 0; exp < 3; exp++ {
+			for exp := 0; exp < 5; exp++ {
 				for thr := 0; thr < 2; thr++ {
 					for _, rej := range bools {
 						if rej && c02Values[v].Type == rdbgen.TStream {
